@@ -6219,6 +6219,11 @@ func (t *Terminal) Loop() error {
 			req(reqList)
 		}
 
+		// The actions bound to an event (jump, jump-cancel, backward-eof,
+		// change) may have changed the query as well
+		queryChanged = queryChanged || t.pasting == nil && string(previousInput) != string(t.input)
+		changed = changed || queryChanged
+
 		if queryChanged && t.canPreview() && len(t.previewOpts.command) > 0 {
 			_, _, forceUpdate := hasPreviewFlags(t.previewOpts.command)
 			if forceUpdate {
